@@ -203,6 +203,26 @@ def _array_df(x):
     return np.array([[x[1], x[0], 1.0], [0.0, 0.0, 2 * x[2]]])
 
 
+def _restriction(f):
+    from gemseo.core.mdo_functions.function_restriction import FunctionRestriction
+
+    return FunctionRestriction(array([1]), array([2.0]), 3, f)
+
+
+def _linear_approximation(f):
+    from gemseo.core.mdo_functions.taylor_polynomials import compute_linear_approximation
+
+    return compute_linear_approximation(f, array([0.5, 1.0, -0.5]))
+
+
+def _user_f(x):
+    return np.array([x[0] * x[1] + x[2]])
+
+
+def _user_df(x):
+    return np.array([[x[1], x[0], 1.0]])
+
+
 def build_wrapper(t, ctx):
     """Factory classes that wrap other disciplines or need arguments."""
     from gemseo import create_discipline
@@ -756,8 +776,24 @@ def run_functions(ctx):
             f = MDOQuadraticFunction(array([[1.0, 0.0, 0.5], [0.0, 2.0, 0.0], [0.5, 0.0, 3.0]]), "quad", linear_coeffs=array([1.0, -1.0, 0.0]), value_at_zero=0.25)
             label = "function:MDOQuadraticFunction"
         else:
-            f = MDOLinearFunction(array([[1.0, 2.0, 3.0]]), "a") + MDOQuadraticFunction(array([[1.0, 0.0, 0.0], [0.0, 1.0, 0.0], [0.0, 0.0, 1.0]]), "b") * 2.0 - 1.0
-            label = "function:algebra"
+            lin = MDOLinearFunction(array([[1.0, 2.0, 3.0]]), "a")
+            quad = MDOQuadraticFunction(array([[1.0, 0.0, 0.0], [0.0, 1.0, 0.0], [0.0, 0.0, 1.0]]), "b")
+            user = MDOFunction(_user_f, "u", jac=_user_df, expr="x0*x1+x2", input_names=["x"], f_type="obj", output_names=["u"])
+            variant = t.choice(9, "algebra_variant")
+            f = [
+                lambda: lin + quad * 2.0 - 1.0,
+                lambda: -user,
+                lambda: user.offset(2.5),
+                lambda: user * quad,
+                lambda: user / (quad + 1.0),
+                lambda: _restriction(user),
+                lambda: _linear_approximation(user),
+                lambda: quad - user * 3.0 + lin,
+                lambda: user,
+            ][variant]()
+            label = f"function:algebra[{variant}]"
+            if variant == 5:
+                pts = [array([0.5, -0.5]), array([1.0, 1.0]), array([-1.0, 2.0])]
         n_pre = t.randint(0, 2, "n_prefix")
         for i in range(n_pre):
             f.evaluate(pts[i])
@@ -770,8 +806,9 @@ def run_functions(ctx):
         for x in pts:
             if not np.array_equal(np.asarray(f.evaluate(x)), np.asarray(g.evaluate(x))) or not np.array_equal(dense(f.jac(x)), dense(g.jac(x))):
                 ctx.violate("C20.behaves_like_original", label, f"restored function differs at {x}")
-        if (g.name, g.f_type, g.input_names, g.dim) != (f.name, f.f_type, f.input_names, f.dim):
-            ctx.violate("C20.behaves_like_original", label + " attributes", "name/type/input names/dim differ after restoring")
+        view = lambda h: (h.name, h.f_type, list(h.input_names), h.dim, h.expr, list(h.output_names), h.has_jac, str(h.special_repr), h.force_real)  # noqa: E731
+        if view(g) != view(f):
+            ctx.violate("C20.behaves_like_original", label + " attributes", f"attributes differ after restoring: {view(f)} -> {view(g)}")
         ctx.case((label, n_pre, transport), nontrivial=n_pre > 0)
         ctx.sample = {"object": label, "prefix_evaluations": n_pre}
         return
